@@ -77,7 +77,7 @@ type scenario struct {
 var scenarios = map[string]scenario{}
 
 func schedCfg(s Sched, verbose bool) sched.Config {
-	return sched.Config{Strategy: s.Strategy, Seed: s.Seed, Tape: s.Tape, Verbose: verbose}
+	return sched.Config{Strategy: s.Strategy, Seed: s.Seed, Tape: s.Tape, Verbose: verbose, Auto: s.Auto}
 }
 
 // RunCase executes the case: optional dry run in its own bubble under the boring schedule, then
@@ -102,7 +102,7 @@ func RunCase(t *testing.T, c *Case, progress *atomic.Int64, verbose bool) *RunRe
 		return r
 	}
 	if sc.pre != nil {
-		rep := sched.Run(t, sched.Config{Strategy: "first"}, progress, func(s *sched.Sim) {
+		rep := sched.Run(t, sched.Config{Strategy: "first", Auto: c.Sched.Auto}, progress, func(s *sched.Sim) {
 			x.S = s
 			sc.pre(x)
 		})
